@@ -78,9 +78,14 @@ public:
 	
 	ScopedRemover & operator = (ScopedRemover && other) noexcept
 	{
-		dispatcher = std::move(other.dispatcher);
-		itemList = std::move(other.itemList);
-		other.reset();
+		if(this != &other) {
+			// Remove the listeners this remover is currently responsible for,
+			// otherwise they are overwritten below and never removed.
+			reset();
+			dispatcher = std::move(other.dispatcher);
+			itemList = std::move(other.itemList);
+			other.reset();
+		}
 		return *this;
 	}
 	
@@ -219,9 +224,14 @@ public:
 
 	ScopedRemover & operator = (ScopedRemover && other) noexcept
 	{
-		callbackList = std::move(other.callbackList);
-		itemList = std::move(other.itemList);
-		other.reset();
+		if(this != &other) {
+			// Remove the callbacks this remover is currently responsible for,
+			// otherwise they are overwritten below and never removed.
+			reset();
+			callbackList = std::move(other.callbackList);
+			itemList = std::move(other.itemList);
+			other.reset();
+		}
 		return *this;
 	}
 
